@@ -2,6 +2,8 @@
 // program: <spawners: string over s,n> <joiners: string over j,k,r,q>
 //   s  scope.spawn(then(leaf)) on thread A_i (try_record_start, then start); leaf completed on C_i
 //   n  like s, but only after some closer/joiner has started
+//   x  scope.spawn(then(throwing_leaf)): connect() throws inside spawn(); the caller catches; the
+//      scope must be left exactly as it was
 //   j  complete()      k  cleanup()      r  request_stop() and return      q  request_stop(); complete()
 // `!ref k` markers: see k1_scope.cpp.  The owner (thread 0) destroys the scope once every spawn
 // call has returned and every closer/joiner is done.
@@ -11,6 +13,7 @@
 using namespace unifex;
 
 static auto void_leaf(vh::leaf_ctl* c) { return then(vh::leaf{c}, [](int) noexcept {}); }
+static auto void_throwing(int i) { return then(sc::throwing_leaf{i}, [](int) noexcept {}); }
 
 struct Shared {
   manual_lifetime<v0::async_scope> scope;
@@ -27,6 +30,7 @@ struct Shared {
   bool setup = false;
   int closers_started = 0;
   char leafname[MAXS][16];
+  sc::run_ctl rc;
 };
 
 int main(int argc, char** argv) {
@@ -59,10 +63,22 @@ int main(int argc, char** argv) {
     for (int i = 0; i < S; ++i) {
       char k = sp[i];
       th.push_back([sh, i, k] {
+        sc::active_guard ag(&sh->rc);
         dsched::block_until([&] { return sh->setup; });
         if (k == 'n') dsched::block_until([&] { return sh->closers_started > 0; });
         auto& scope = sh->scope.get();
         dsched::action("ref %d", i);
+        if (k == 'x') {
+          try {
+            scope.spawn(void_throwing(i));
+            dsched::action("fault%d.nothrow", i);
+          } catch (const sc::connect_failure&) {
+            dsched::action("fault%d.caught", i);
+          }
+          sh->rejected[i] = true;
+          sh->nested[i] = true;
+          return;
+        }
         scope.spawn(void_leaf(&sh->ctl[i]));
         sh->rejected[i] = !sh->ctl[i].started;
         sh->nested[i] = true;
@@ -70,7 +86,9 @@ int main(int argc, char** argv) {
       });
     }
     for (int i = 0; i < S; ++i) {
+      if (sp[i] == 'x') continue;
       th.push_back([sh, i] {
+        sc::active_guard ag(&sh->rc);
         dsched::block_until([&] { return sh->ctl[i].started || (sh->nested[i] && sh->rejected[i]); });
         if (!sh->ctl[i].started) return;
         dsched::action("ref %d", i);
@@ -80,6 +98,7 @@ int main(int argc, char** argv) {
     for (int j = 0; j < J; ++j) {
       char jk = jn[j];
       th.push_back([sh, j, jk] {
+        sc::active_guard ag(&sh->rc);
         dsched::block_until([&] { return sh->setup; });
         auto& scope = sh->scope.get();
         sc::join_receiver rcv{&sh->jst[j], &sh->slot[j], j};
@@ -93,22 +112,24 @@ int main(int argc, char** argv) {
         if (jk == 'k') {
           sh->kop[j].construct_with([&] { return unifex::connect(scope.cleanup(), rcv); });
           unifex::start(sh->kop[j].get());
-          sh->slot[j].run_when_ready();
+          if (!sh->slot[j].run_when_ready(&sh->rc)) sh->jst[j].completions = -1;
           sh->kop[j].destruct();
         } else {
           sh->cop[j].construct_with([&] { return unifex::connect(scope.complete(), rcv); });
           unifex::start(sh->cop[j].get());
-          sh->slot[j].run_when_ready();
+          if (!sh->slot[j].run_when_ready(&sh->rc)) sh->jst[j].completions = -1;
           sh->cop[j].destruct();
         }
       });
     }
+    sh->rc.active = (int)th.size() - 1;
     return th;
   };
   sc::MonitorCfg cfg;
   cfg.joins_started = 0;
   for (char c : jn) if (c != 'r') cfg.joins_started++;
   cfg.expect_stop = jn.find_first_of("krq") != std::string::npos;
+  if (sp.find('x') != std::string::npos) cfg.fault_op = "spawn";
   auto monitor = [&](const dsched::Result& r) -> std::string { return sc::scope_monitor(r, cfg); };
   return vh::drive(cli, make, monitor);
 }
